@@ -1,6 +1,7 @@
 """C14 - invariances of the statistics: metamorphic relations evaluated on the real binary (stat after view -m / fold /
 transposition / scaling / overwriting the monomorphic entries), beside the theorems of Properties/C14.v."""
 import itertools
+import math
 import random
 import sys
 from fractions import Fraction
@@ -65,6 +66,11 @@ def check(rep, tier, seed):
         for (st, sh, data), (rc, v, se, so), (want, origin) in zip(cases, res, expect):
             rep.count("inv:" + kind, "%s %s on %s" % (kind, st, fmt(origin[1])), want not in (None, 0.0))
             if want is None:
+                continue
+            if isinstance(want, float) and (math.isnan(want) or math.isinf(want)):
+                # the statistic is undefined on the original spectrum (e.g. Tajima's D with 3 chromosomes: zero variance):
+                # nothing to compare; counted
+                rep.coverage["undefined_reference_values_skipped"] = rep.coverage.get("undefined_reference_values_skipped", 0) + 1
                 continue
             if rc != 0 or v is None or not close(v, want):
                 rep.fail(kind="property-oracle", cls="inv:%s:%s" % (kind, st), case="stat %s %s %s" % (origin[0], fmt(origin[1]), fmt(origin[2])),
